@@ -16,7 +16,8 @@ CONSTANTS MinRank, MaxRank, MaxDim, MaxDimHi, HiRank,
           LayA, LayB, \* layouts of the operands
           Modes,      \* subset of {"safe","unsafe","reuse","incr","reuseA","reuseB"}
           LayD,       \* layouts of a reuse / incr destination
-          ShapeMismatch
+          ShapeMismatch,
+          Chain       \* BOOLEAN: safe arithmetic results are fed to a second call
 
 Shapes == UNION {ShapesOfRank(r, IF r >= HiRank THEN MaxDimHi ELSE MaxDim) : r \in MinRank..MaxRank}
 
@@ -35,7 +36,13 @@ Program(kind, s, form, la, lb, mode, ld, same) ==
         call == CASE kind = "Arith" -> Op("Arith", ra.h, <<"OP", form, b, m, d>>)
                   [] kind = "Cmp"   -> Op("Cmp", ra.h, <<"OP", form, b, m, d, same>>)
                   [] kind = "Unary" -> Op("Unary", ra.h, <<"OP", m, d, 1, 2>>)
-    IN ra.ops \o rb.ops \o rd.ops \o <<call>>
+        (* a safe call returns a fresh tensor (handle nd + rd.n); fed to a second call together with a new contiguous
+           tensor it must behave as the array it is - whatever layout bookkeeping the library gave it *)
+        resH == nd + rd.n
+        chain == IF mode = "safe" /\ kind = "Arith" /\ Chain
+                 THEN <<Op("New", 0, <<s, "C", "">>), Op("Arith", resH, <<"OP", "TT", resH + 1, "safe", 0>>)>>
+                 ELSE <<>>
+    IN ra.ops \o rb.ops \o rd.ops \o <<call>> \o chain
 
 Next ==
     /\ steps = <<>>
